@@ -65,7 +65,7 @@ def base_conn(client, name):
         h.cleanup()
         assert 1 not in h.conn.streams
         return h.conn
-    if name == "pending-output":
+    if name in ("pending-output", "pending-output-partly-read"):
         c = corpus.build_state(client, "open")
         c.ping(b"12345678")
         if not client:
@@ -176,16 +176,20 @@ class Spec:
     def initial(self):
         out = []
         names = [n for n in (corpus.CLIENT_STATES if self.client else corpus.SERVER_STATES) if not n.startswith("closed")]
-        names += ["unacked-data", "unacked-data-forgotten", "pending-output"]
+        names += ["unacked-data", "unacked-data-forgotten", "pending-output", "pending-output-partly-read"]
         for name in names:
             for route in ROUTES:
+                if name == "pending-output-partly-read" and not route.startswith("rx-"):
+                    continue      # (what is left of a half-read frame does not parse: only the discard on GOAWAY is judged here)
                 conn = base_conn(self.client, name)
                 pre = b""
                 if name == "fresh" and not self.client and not route.startswith("close_connection"):
                     conn.receive_data(wire.PREFACE)
                 if name == "preface-half" and not route.startswith("close_connection"):
                     conn.receive_data(wire.PREFACE[10:])
-                if name != "pending-output":
+                if name == "pending-output-partly-read":
+                    conn.data_to_send(9)      # a sized read that leaves most of the queued output behind
+                elif name != "pending-output":
                     conn.data_to_send()
                 res = close_it(conn, self.client, route)
                 if not res or (isinstance(res, str) and name == "mid-block"):
